@@ -214,14 +214,51 @@ struct AlignedHeader
   uint64_t magic;
 };
 const uint64_t ALIGNED_MAGIC = 0x7bbA11ca7edULL;
+const uint64_t CACHED_MAGIC = 0x7bbCAC4ed00ULL;
+// Like the real library, the stub can keep released large blocks in a cache shared by all threads and hand them out again
+// (most recently released first), so that an address can come back to another thread right after it was released. Off unless a
+// scenario asks for it: a cached block stays 'live' for the arena shadow.
+int g_recycle = 0;
+int g_live_blocks = 0;
+std::mutex g_cache_mtx;
+struct Cached
+{
+  void *p;
+  size_t capacity;
+};
+enum { CACHE_SLOTS = 8 };
+Cached g_cache[CACHE_SLOTS];
+int g_cached = 0;
 }  // namespace
 extern "C" {
+void tbbstub_set_recycle(int on) { g_recycle = on; }
+int tbbstub_live_blocks(void)
+{
+  std::lock_guard<std::mutex> lock(g_cache_mtx);
+  return g_live_blocks;
+}
 void *scalable_aligned_malloc(size_t size, size_t alignment)
 {
   if (alignment == 0 || (alignment & (alignment - 1)) || size > (size_t)1 << 40)
     return nullptr;
   if (alignment < sizeof(void *))
     alignment = sizeof(void *);
+  if (g_recycle) {
+    std::lock_guard<std::mutex> lock(g_cache_mtx);
+    for (int i = g_cached - 1; i >= 0; i--) {
+      Cached c = g_cache[i];
+      if (c.capacity >= size && c.capacity - size <= size / 4 + 4096 && ((uintptr_t)c.p & (alignment - 1)) == 0) {
+        for (int k = i; k + 1 < g_cached; k++)
+          g_cache[k] = g_cache[k + 1];
+        g_cached--;
+        AlignedHeader *h = (AlignedHeader *)c.p - 1;
+        h->size = size;
+        h->magic = ALIGNED_MAGIC;
+        g_live_blocks++;
+        return c.p;
+      }
+    }
+  }
   void *raw = ::operator new(size + alignment + sizeof(AlignedHeader), std::nothrow);
   if (!raw)
     return nullptr;
@@ -230,6 +267,10 @@ void *scalable_aligned_malloc(size_t size, size_t alignment)
   h->raw = raw;
   h->size = size;
   h->magic = ALIGNED_MAGIC;
+  {
+    std::lock_guard<std::mutex> lock(g_cache_mtx);
+    g_live_blocks++;
+  }
   return (void *)p;
 }
 void scalable_aligned_free(void *ptr)
@@ -239,6 +280,17 @@ void scalable_aligned_free(void *ptr)
   AlignedHeader *h = (AlignedHeader *)ptr - 1;
   if (h->magic != ALIGNED_MAGIC)
     __builtin_trap();  // not a block of this allocator (or freed twice): the real library would corrupt its heap
+  {
+    std::lock_guard<std::mutex> lock(g_cache_mtx);
+    g_live_blocks--;
+    if (g_recycle && h->size >= (1u << 20) && g_cached < CACHE_SLOTS) {
+      h->magic = CACHED_MAGIC;
+      g_cache[g_cached].p = ptr;
+      g_cache[g_cached].capacity = h->size;
+      g_cached++;
+      return;
+    }
+  }
   h->magic = 0;
   ::operator delete(h->raw);
 }
